@@ -1453,6 +1453,8 @@ Proof.
     destruct (negb fok); [exfalso; eapply Hno; eassumption|].
     rewrite WriterFacts.bind_lift in H.
     destruct (json_dump j) as [d|e1]; [|inversion H].
+    rewrite WriterFacts.bind_get, WriterFacts.bind_lift in H.
+    destruct (if wv_truthy enc then _ else _) as [has_enc|e1]; [|inversion H].
     right. do 8 eexists. split; [|split; [exact H|rewrite Nat.add_sub; reflexivity]]. cbn; auto.
   - destruct content; try (exfalso; eapply Hno; eassumption).
     rewrite WriterFacts.bind_lift in H.
@@ -1804,6 +1806,8 @@ Proof.
     destruct (negb fok) eqn:Efok; [exfalso; eapply Hno; eassumption|].
     rewrite WriterFacts.bind_lift in H.
     destruct (json_dump j) as [d|e1]; [|inversion H].
+    rewrite WriterFacts.bind_get, WriterFacts.bind_lift in H.
+    destruct (if wv_truthy enc then _ else _) as [has_enc|e1]; [|inversion H].
     eapply Hcontent; try exact H.
     + cbn; auto.
     + cbn [WriterFacts.target]. rewrite Nat.add_sub. reflexivity.
@@ -2061,14 +2065,64 @@ Qed.
 Lemma unix_newline_format : assoc_get beq GenText.le_unix GenText.newline_formats = Some (nl_text GenText.le_unix).
 Proof. vm_compute. reflexivity. Qed.
 
+(* write_meta's test "is an encoding in force?" is the truthiness of the effective encoding *)
+Lemma meta_has_enc_eff : forall s enc b,
+  (if wv_truthy enc then Ok true else do ce <- cur_encoding s; Ok (wv_truthy ce)) = Ok b ->
+  exists ce, eff_enc s enc true = Ok ce /\ wv_truthy ce = b.
+Proof.
+  intros s enc b H. unfold eff_enc. destruct (wv_truthy enc) eqn:E; cbn [negb andb].
+  - apply Ok_inj in H. subst b. exists enc. split; [reflexivity|exact E].
+  - destruct (cur_encoding s) as [ce|e]; [|discriminate H]. cbn [bind] in H. apply Ok_inj in H.
+    exists ce. split; [reflexivity|exact H].
+Qed.
+
+Lemma guess_json_bytes : forall r,
+  guess_line_endings_bytes (x7b :: x0a :: r) (Some (B "ascii")) = Ok (GenText.le_unix, [x0a]).
+Proof.
+  intros r. unfold guess_line_endings_bytes. cbv zeta.
+  replace (py_encode (nl_text GenText.le_unix) (enc_or_ascii (Some (B "ascii")))) with (Ok [x0a])
+    by (vm_compute; reflexivity).
+  replace (py_encode (nl_text GenText.le_dos) (enc_or_ascii (Some (B "ascii")))) with (Ok [x0d; x0a])
+    by (vm_compute; reflexivity).
+  cbn [bind].
+  replace (strip_bom [x0a] (Some (enc_or_ascii (Some (B "ascii"))))) with [x0a] by (vm_compute; reflexivity).
+  replace (strip_bom [x0d; x0a] (Some (enc_or_ascii (Some (B "ascii"))))) with [x0d; x0a] by (vm_compute; reflexivity).
+  reflexivity.
+Qed.
+
+(* a falsy effective encoding names no BOM: None and friends give no codec name at all, '' is not in the BOM table *)
+Lemma strip_bom_falsy : forall ce x, wv_truthy ce = false -> strip_bom x (enc1_name ce) = x.
+Proof.
+  intros ce x H. destruct ce as [| | |t| | |]; try reflexivity.
+  destruct t as [|c t]; [|discriminate H]. cbn [enc1_name].
+  change (c_enc ascii []) with (Some (@nil byte)).
+  unfold strip_bom. replace (assoc_get beq (canonical_or_same []) GenText.boms) with (@None (list bytes))
+    by (vm_compute; reflexivity). reflexivity.
+Qed.
+
+(* RESTATED for the fixed write_meta (`if not (encoding or self._cur_encoding): content = content.encode('ascii')`).
+   The previous statement concluded, for EVERY accepted write_meta, that the effective encoding is a str [e] whose
+   codec encodes the JSON text.  That is false of the fixed writer (see [C02_meta_call_old_refuted] below): with no
+   encoding in force — e.g. DiffXWriter(encoding=None).write_meta({..}) — the call used to raise TypeError and is
+   now accepted; the (pure ASCII) JSON bytes are written as they are, terminated by an ASCII LF.  What is true is
+   the case split on the truthiness of the effective encoding [ce] (the argument, else the innermost container's):
+   truthy: exactly the old conclusion; falsy: the body is the canonical JSON bytes plus the ASCII newline. *)
 Theorem C02_meta_call : forall s kv enc fmt s',
   do_call (WriteMeta (WDict (JObj kv)) enc fmt) s = (s', Ok tt) ->
-  exists d e eb cb newline fmtv h,
+  exists d ce body fmtv h,
     kv <> [] /\ json_dump (JObj kv) = Ok d /\
-    eff_enc s enc true = Ok (WStr e) /\ c_enc ascii e = Some eb /\
-    py_encode (ascii_text d) eb = Ok cb /\
-    get_newline_for_type GenText.le_unix (Some eb) = Ok newline /\
-    let body := add_newline newline cb in
+    eff_enc s enc true = Ok ce /\
+    ((wv_truthy ce = true /\
+      exists e eb cb newline,
+        ce = WStr e /\ c_enc ascii e = Some eb /\
+        py_encode (ascii_text d) eb = Ok cb /\
+        get_newline_for_type GenText.le_unix (Some eb) = Ok newline /\
+        body = add_newline newline cb)
+     \/
+     (wv_truthy ce = false /\
+      exists newline,
+        get_newline_for_type GenText.le_unix None = Ok newline /\
+        body = add_newline newline d)) /\
     render_header (build_id (cur_level s) (B "meta"))
       (content_opts body (WStr (ascii_text GenText.le_unix)) enc WNone false [(B "format", fmtv)]) = Ok h /\
     w_out s' = w_out s ++ h ++ body.
@@ -2081,26 +2135,64 @@ Proof.
   destruct (negb fok); [inversion H|].
   rewrite WriterFacts.bind_lift in H.
   destruct (json_dump (JObj kv)) as [d|e1] eqn:Ed; [|inversion H].
+  rewrite WriterFacts.bind_get, WriterFacts.bind_lift in H.
+  destruct (if wv_truthy enc then _ else _) as [has_enc|e1] eqn:Ehe; [|inversion H].
+  destruct (meta_has_enc_eff _ _ _ Ehe) as (ce & Hce & Htruthy).
   apply C02_length_exact in H. destruct H as (body & le_out & h & Hprep & Hh & _ & Ho & _ & _).
   apply prepare_content_unfold in Hprep.
   destruct Hprep as (enc1 & nl0 & nb & cb & H1 & H2 & H3 & H4 & _ & H6).
+  rewrite Hce in H1. apply Ok_inj in H1. subst enc1.
   (* the JSON text starts with "{" LF, so the detected line ending is unix *)
-  assert (Hd : exists r, ascii_text d = 123%N :: 10%N :: r).
+  assert (Hd : exists r, d = x7b :: x0a :: r).
   { unfold json_dump in Ed. rewrite dump_obj in Ed by exact Hkv.
     destruct (dump_members 0 kv); [|discriminate Ed]. apply Ok_inj in Ed. subst d.
-    eexists. unfold ascii_text. rewrite !map_app. reflexivity. }
+    eexists. reflexivity. }
   destruct Hd as (r & Hr).
-  unfold choose_newline in H2. cbn [declared_newline] in H2. rewrite Hr, guess_json_text in H2.
-  apply Ok_inj in H2. injection H2 as <- <-.
-  cbn [encode_newline] in H3. apply encode_dyn_ok in H3. destruct H3 as (e & eb & -> & Heb & Hpy).
-  cbn [encode_content] in H4. unfold encode_dyn in H4. rewrite Heb in H4.
   unfold finish_content in H6. cbn [wv_truthy] in H6. apply Ok_inj in H6. subst body.
-  cbn [enc1_name] in *. rewrite Heb in *.
-  exists d, e, eb, cb, (strip_bom nb (Some eb)).
-  eexists. exists h. split; [exact Hkv|]. split; [reflexivity|]. split; [exact H1|]. split; [exact Heb|].
-  split; [exact H4|]. split.
-  - unfold get_newline_for_type, enc_or_ascii. rewrite unix_newline_format, Hpy. reflexivity.
-  - cbv zeta. split; [exact Hh|exact Ho].
+  destruct has_enc; cbv iota in *.
+  - (* an encoding is in force: the JSON text is encoded like any text content *)
+    unfold choose_newline in H2. cbn [declared_newline] in H2.
+    assert (Hrt : ascii_text d = 123%N :: 10%N :: ascii_text r) by (rewrite Hr; reflexivity).
+    rewrite Hrt, guess_json_text in H2.
+    apply Ok_inj in H2. injection H2 as <- <-.
+    cbn [encode_newline] in H3. apply encode_dyn_ok in H3. destruct H3 as (e & eb & -> & Heb & Hpy).
+    cbn [encode_content] in H4. unfold encode_dyn in H4. rewrite Heb in H4.
+    cbn [enc1_name] in *. rewrite Heb in *.
+    exists d, (WStr e), (add_newline (strip_bom nb (Some eb)) cb).
+    eexists. exists h. split; [exact Hkv|]. split; [reflexivity|]. split; [exact Hce|]. split.
+    + left. split; [exact Htruthy|]. exists e, eb, cb, (strip_bom nb (Some eb)).
+      split; [reflexivity|]. split; [exact Heb|]. split; [exact H4|]. split; [|reflexivity].
+      unfold get_newline_for_type, enc_or_ascii. rewrite unix_newline_format, Hpy. reflexivity.
+    + split; [exact Hh|exact Ho].
+  - (* no encoding in force: the JSON bytes go out as they are, with an ASCII newline *)
+    unfold choose_newline in H2. cbn [declared_newline] in H2.
+    unfold newline_encoding_of in H2. rewrite Htruthy in H2.
+    replace (enc_name (WStr (ascii_text (B "ascii")))) with (Ok (Some (B "ascii"))) in H2 by (vm_compute; reflexivity).
+    cbn [bind] in H2. rewrite Hr, guess_json_bytes in H2. cbn [bind fst snd] in H2.
+    apply Ok_inj in H2. injection H2 as <- <-.
+    cbn [encode_newline] in H3. apply Ok_inj in H3. subst nb.
+    cbn [encode_content] in H4. apply Ok_inj in H4. subst cb.
+    rewrite (strip_bom_falsy ce [x0a] Htruthy) in *.
+    exists d, ce, (add_newline [x0a] d).
+    eexists. exists h. split; [exact Hkv|]. split; [reflexivity|]. split; [exact Hce|]. split.
+    + right. split; [exact Htruthy|]. exists [x0a]. split; [vm_compute; reflexivity|reflexivity].
+    + split; [exact Hh|exact Ho].
+Qed.
+
+(* the previous statement of C02_meta_call is refuted by the fixed writer: DiffXWriter(encoding=None) followed by
+   write_meta({'k': 1}) is accepted although no str encoding is in effect *)
+Example C02_meta_call_old_refuted :
+  exists s kv enc fmt s',
+    WriterFacts.reachable s /\
+    do_call (WriteMeta (WDict (JObj kv)) enc fmt) s = (s', Ok tt) /\
+    eff_enc s enc true = Ok WNone /\
+    ~ (exists e, eff_enc s enc true = Ok (WStr e)).
+Proof.
+  set (s0 := fst (writer_init WNone WriterFacts.V10)).
+  exists s0, [(ascii_text (B "k"), JInt 1)], WNone, None.
+  eexists. split; [|split; [vm_compute; reflexivity|split; [vm_compute; reflexivity|]]].
+  - apply (WriterFacts.reachable_init WNone WriterFacts.V10). vm_compute. reflexivity.
+  - intros (e & He). vm_compute in He. discriminate He.
 Qed.
 
 (* ================================================================================================ *)
